@@ -26,8 +26,19 @@ def gen_table(rng, c, many=False):
         samples = [str(x) for x in rng.permutation([2, 10, 33, 9, 100, 7])[:D]]
     else:
         samples = ["T%d" % s for s in rng.permutation(9)[:D]]
+        if c % 6 == 4:
+            samples[0] = ["NA", "null", "S#1", "None"][int(rng.integers(0, 4))]
     numeric_ids = c % 5 == 0
     ids = list(rng.permutation(max(50, 2 * n_mut))[:n_mut] + 1) if numeric_ids else ["mut_%s" % "".join(rng.choice(list("abcxyz"), 3)) + str(i) for i in range(n_mut)]
+    if not numeric_ids and c % 3 == 1 and not many:
+        # identifiers are free text: characters that mean something to table parsers, and names that spell a
+        # missing-value token
+        special = ["#0007", "chr3:1200#2", "NA", "null", "None", "N/A", "nan", "a b", "1e5", "007", "x|y", "a;b", "(p)",
+                   "chr1:5:A>T", "NULL", "#N/A", "<NA>", "-", "n/a", "\u00e9\u00df", "0x1F", "True", "mut%", "a'b", "@id", "*"]
+        for k in rng.permutation(len(ids))[: max(1, len(ids) // 2)]:
+            ids[int(k)] = special[int(rng.integers(0, len(special)))] + ("" if rng.random() < 0.5 else "_%d" % k)
+        ids = list(dict.fromkeys(ids))
+        n_mut = len(ids)
     rows = []
     kept = []
     classes = {}
@@ -224,7 +235,8 @@ def load_task(task):
 def run(ctx):
     quick = ctx.tier == "quick"
     ctx.rule = ("generated tables of 2-8 mutations x 1-3 samples with mutation classes ok / missing in a sample / zero "
-                "major CN in a sample / duplicated / zero everywhere, numeric and string ids, tab or comma, optional "
+                "major CN in a sample / duplicated / zero everywhere, numeric and string ids (incl. '#', ':', '|', blanks, and names "
+                "that spell a missing-value token: NA, null, None, N/A ...), tab or comma, optional "
                 "columns present or absent, unused annotation columns (partly blank, populated, entirely blank) in two of five tables, with and without a cluster file; 5 random row permutations each; "
                 "distinct = (set of classes present, separator, optional columns, clustering, #samples)")
     ctx.assumptions = ["excluded by the property: a sample keeping no usable row; extra rows in one sample offsetting "
